@@ -9,7 +9,7 @@
    about an input class where the current code deviates (coincident samples). *)
 From Coq Require Import List ZArith QArith Qcanon Floats Permutation.
 From TK Require Import Mat_Sums Mat_Qc Knn_Spec Tsne_Model Tsne_Vp_Model Tsne_Sym_Model Tsne_Spec
-  Tsne_Proof_Dense Tsne_Proof_Perp Tsne_Proof_K Tsne_Proof_Vp Tsne_Proof_Sym Tsne_Proof_Sym2 Tsne_Proof_SymSpec Tsne_BH_Model Tsne_Proof_BH.
+  Tsne_Proof_Dense Tsne_Proof_Perp Tsne_Proof_K Tsne_Proof_Vp Tsne_Proof_Sym Tsne_Proof_Sym2 Tsne_Proof_SymSpec Tsne_Proof_Csr Tsne_BH_Model Tsne_Proof_BH.
 From TK Require QuadTree_Model QuadTree_Spec QuadTree_SpecExec QuadTree_Proof_Gradient QuadTree_Proof_Final.
 Import ListNotations.
 
@@ -279,6 +279,20 @@ Theorem sparse_symmetrise : forall V (vadd : V -> V -> V) (vhalf : V -> V) (p : 
   exists s, symmetrize V vadd vhalf p N = Ok s /\ sym_spec vadd vhalf N p s.
 Proof. exact symmetrize_represents. Qed.
 Print Assumptions sparse_symmetrise.
+
+(* the CSR triple the K-NN overload builds (row_P[n+1] = row_P[n] + |row n|, rows laid out one after
+   the other) is well formed as soon as every row has distinct columns below N — which
+   bh_neighbours_exact_fixed gives (is_knn: NoDup, in range): the hypothesis of the three theorems above *)
+Theorem knn_csr_wf : forall V (rows : list (list (nat * V))),
+  (forall row, In row rows -> NoDup (map fst row) /\ forall c, In c (map fst row) -> (c < length rows)%nat) ->
+  wf_csr (length rows) (csr_of_rows V rows).
+Proof. exact csr_of_rows_wf. Qed.
+Print Assumptions knn_csr_wf.
+
+Example knn_csr_wf_nonvacuous :
+  forall row, In row [[(1%nat, 1%nat)]; [(0%nat, 1%nat)]] ->
+    NoDup (map fst row) /\ forall c, In c (map fst row) -> (c < length [[(1%nat, 1%nat)]; [(0%nat, 1%nat)]])%nat.
+Proof. exact knn_csr_wf_example. Qed.
 
 (* the counting behind it: row_counts[x] (first pass) is exactly the number of times offset[x]
    is advanced (second pass), so every store sym_*_P[sym_row_P[x] + offset[x]] stays below
